@@ -241,6 +241,7 @@ def sh2_data_transfer(obj, m):
 @ispec("16<[ 0100 n(4) 1111 0100 ]", mnemonic="MOVMU")
 def sh2_data_transfer(obj, n):
     Rn = env.R[n] if n != 15 else env.PR
+    obj.m = n
     R15 = env.R[15]
     obj.operands = [env.mem(R15, 32), Rn]
     obj.misc["incr"] = (0,)
